@@ -17,29 +17,35 @@ Proof.
     destruct (key_is k "attributes"); [destruct (dec_attrs a0 v); reflexivity|]. rewrite Hf. reflexivity. }
   rewrite G by exact H. reflexivity.
 Qed.
+Print Assumptions C19_unspecified_kept.
 
 (** the CLI's `toxic update` without --toxicity passes the value the client library treats as
     "keep the current value", so the request carries no toxicity (and C19_unspecified_kept applies);
     `toxic add` without --toxicity passes the API's own default *)
 Theorem C19_cli_update_keeps_toxicity : cli_update_default_toxicity_1024 = client_update_keep_sentinel_1024.
 Proof. reflexivity. Qed.
+Print Assumptions C19_cli_update_keeps_toxicity.
 
 Theorem C19_cli_add_default_is_api_default :
   cli_add_default_toxicity_1024 = toxic_toxicity_default_1024 /\ client_add_default_toxicity_1024 = toxic_toxicity_default_1024.
 Proof. split; reflexivity. Qed.
+Print Assumptions C19_cli_add_default_is_api_default.
 
 (** proxies handed back by Client.Populate denote existing server-side proxies: operations on
     them are updates, not creates *)
 Theorem C19_populate_handles_created : client_populate_marks_created = true.
 Proof. reflexivity. Qed.
+Print Assumptions C19_populate_handles_created.
 
 (** a server-side error is surfaced: exactly the statuses in [200, 300) count as success, and
     every rejection of the API model is outside that range *)
 Theorem C19_errors_surface : client_ok_from = 200 /\ client_ok_below = 300 /\
   (forall r : response, 400 <= status r -> ~ (client_ok_from <= status r < client_ok_below)).
 Proof. repeat split; try reflexivity. intros r H. unfold client_ok_from, client_ok_below. lia. Qed.
+Print Assumptions C19_errors_surface.
 
 (** attributes the caller does not mention keep their server-side values *)
 Theorem C19_unmentioned_attrs_kept : forall (a : attrs) f z,
   has_field a f = None -> fst (dec_attr_field (a, false) (f, JInt z)) = a.
 Proof. intros a f z H. unfold dec_attr_field. rewrite H. reflexivity. Qed.
+Print Assumptions C19_unmentioned_attrs_kept.
